@@ -414,6 +414,66 @@ def check_sampler_wiring(chk, mcmc, peds, n_max, logf_of, base_of):
             if bad:
                 break
 
+    # ---- inside a sweep: every update draws from the Gibbs / MH vector of the state as it is at that moment.  compound_step,
+    # sample_step and allele_step run as plain Python (calling each other), the two vector functions are wrapped: the wrapper
+    # returns what the code computes with whatever it was handed and compares it with the vector computed afresh from the
+    # current state and the standard arguments alone (anything carried along a sweep - a table built when the sweep started -
+    # would be stale after the first accepted change)
+    std = ("target_index", "allele_index", "sample_genotypes", "sample_ploidy", "sample_parents", "sample_children", "gamete_tau",
+           "gamete_lambda", "gamete_error", "sample_read_dists", "sample_read_counts", "haplotypes", "log_frequencies", "llk_cache",
+           "dosage", "dosage_p", "dosage_q", "gamete_p", "gamete_q", "constraint_p", "constraint_q", "dosage_log_frequencies")
+    names = ("compound_step", "sample_step", "allele_step", "gibbs_probabilities", "metropolis_hastings_probabilities")
+    gc = mcmc.compound_step.py_func.__globals__
+    orig = {k: gc[k] for k in names}
+    n_sweeps = 0
+    for pi, P in enumerate(peds[:n_max]):
+        if P["N"] < 2 or not (P["parents"] >= 0).any() or P["n"] < 2:
+            continue
+        stale = []
+
+        def wrap(kind):
+            real = orig[kind]
+            sig_ = inspect.signature(real.py_func)
+
+            def f_(*a, **kw):
+                d = dict(sig_.bind(*a, **kw).arguments)
+                out = real(*a, **kw)
+                fresh_args = {k_: d[k_] for k_ in std}
+                fresh_args["sample_genotypes"] = d["sample_genotypes"].copy()
+                for k_ in ("dosage", "dosage_p", "dosage_q", "gamete_p", "gamete_q", "constraint_p", "constraint_q", "dosage_log_frequencies"):
+                    fresh_args[k_] = np.zeros_like(d[k_])
+                fresh_args["llk_cache"] = None if d["llk_cache"] is None else typed_cache()
+                fresh = real(**fresh_args)
+                a_, b_ = np.asarray(out, dtype=float), np.asarray(fresh, dtype=float)
+                if a_.shape != b_.shape or not np.allclose(a_, b_, rtol=1e-9, atol=1e-12, equal_nan=True):
+                    stale.append({"target": int(d["target_index"]), "slot": int(d["allele_index"]), "state": d["sample_genotypes"].tolist(),
+                                  "used": a_.tolist(), "of_the_current_state": b_.tolist(), "kind": kind})
+                return out
+            return f_
+        s2 = np.where(P["state"] < 0, -1, P["state"]).astype(np.int16)
+        args = dict(sample_genotypes=s2, sample_ploidy=P["ploidy"], sample_parents=P["parents"], sample_children=P["children"],
+                    gamete_tau=P["tau"], gamete_lambda=P["lam"], gamete_error=P["err"], sample_read_dists=P["reads"],
+                    sample_read_counts=P["counts"], haplotypes=P["haps"], log_frequencies=logf_of(P), llk_cache=typed_cache(),
+                    **scratch(P["mp"]))
+        gc["sample_step"], gc["allele_step"] = orig["sample_step"].py_func, orig["allele_step"].py_func
+        gc["gibbs_probabilities"], gc["metropolis_hastings_probabilities"] = wrap("gibbs_probabilities"), wrap("metropolis_hastings_probabilities")
+        try:
+            np.random.seed(1000 + pi)
+            for sweep in range(3):
+                try:
+                    orig["compound_step"].py_func(step_type=pi % 2, **args)
+                except (AssertionError, ValueError, ZeroDivisionError):
+                    break
+        finally:
+            gc.update(orig)
+        n_sweeps += 1
+        chk.count("sweep-vectors"); chk.case(["sweep-vectors", pi], True)
+        if stale:
+            chk.violation("inside a sweep an allele is drawn from a vector that is not the Gibbs / MH vector of the state at that moment",
+                          {**base_of(P), **stale[0], "n_updates_affected": len(stale)}, "C18/sweep/stale-vector")
+        if n_sweeps >= max(5, n_max // 3):
+            break
+
     # ---- PedigreeCallingMCMC.fit -> mcmc_sampler: the model's own pedigree, parameters, log prior frequencies, options
     from mchap.pedigree import classes as pcls
     gm = pcls.PedigreeCallingMCMC.fit.__globals__
